@@ -347,7 +347,7 @@ class C14(PropCheck):
     id = 'C14'
     extractors = (margin_boxes.generate, page_sizes.generate)
     modules = ('WpModel.Props.C14', 'WpModel.Props.C14Strings', 'WpModel.Props.C14Variable', 'WpModel.Props.C14Groups',
-               'WpModel.Props.C14Parse', 'WpModel.Props.C14Percent', 'WpModel.Props.C14Sheet', 'WpModel.Props.C14Doc', 'WpModel.Props.C14Marks',
+               'WpModel.Props.C14Parse', 'WpModel.Props.C14Percent', 'WpModel.Props.C14Sheet', 'WpModel.Props.C14Exact', 'WpModel.Props.C14Doc', 'WpModel.Props.C14Marks',
                'WpModel.Witness.C14')
     trusted_base = (
         'modelled, not verified: layout/page.py page_width_or_height, page_width/page_height (+ min_max.py), '
@@ -914,6 +914,8 @@ MANIFEST = {
             'edge outside the page box inside the bleed area, cross-mark circles inside their bleed strip; render_sound: every page of the document '
             'model (the function compared with rendered documents) is makePageBox of a cascaded style + makeMarginBoxes on '
             'its geometry, counter(pages) = number of pages, page sequence = docPages (function-level theorems transported); '
+            'make_margin_boxes_exact / render_margin_boxes_exact: the margin boxes yielded (of every page of a rendered document) are '
+            'exactly those with content in the cascade, once each, in the order of the code; '
             'render_margin_boxes_have_content: every margin box of every page of a rendered document has, in the cascade of '
             'the @page rules selecting that page for that box, a content other than normal/none; '
             'render_page_counter: counter(page) = i+1 on every page of a rendered document whose @page rules touch no counter '
